@@ -27,7 +27,8 @@ EXC_CODES = ['ValueError', 'UnicodeError', 'UnicodeEncodeError', 'UnicodeDecodeE
              'OverflowError']
 NATIVE_ENC = {'utf-8': 'utf8', 'latin-1': 'latin1', 'ascii': 'ascii'}
 TABLE_ENCODINGS = ['cp1252', 'shift_jis', 'koi8-r', 'gbk', 'euc-kr', 'big5']
-WIDE_ENCODINGS = ['utf-16', 'utf-16-le', 'utf-16-be', 'utf-32']
+WIDE_ENCODINGS = ['utf-16', 'utf-16-le', 'utf-16-be', 'utf-32', 'hz', 'utf-7', 'iso-2022-jp', 'iso-2022-kr']
+PRINTABLE_ASCII = ''.join(chr(i) for i in range(0x20, 0x7f))
 
 TRUSTED_COMMON = [
     'parameters of the model, logged from the real run and passed per case: str.encode("idna") of non-ASCII hosts, '
@@ -287,6 +288,24 @@ def charwise(url, encoding, extra=''):
             tab.append((ch, eexc_value(bs)))
         except UnicodeError as e:
             tab.append((ch, eexc_value(e)))
+    # a stateful codec (iso-2022-*, hz …) is not character-wise even when the whole text cannot be encoded
+    good = [ch for ch in sorted(set(url) | set(extra)) if ord(ch) >= 128]
+    enc1 = {}
+    for ch in good:
+        try:
+            enc1[ch] = ch.encode(encoding)
+        except UnicodeError:
+            pass
+    try:
+        for ch, bs in enc1.items():
+            if ('a' + ch + 'z').encode(encoding) != b'a' + bs + b'z':
+                return None
+        both = url + extra
+        for a, b in zip(both, both[1:]):
+            if a in enc1 and b in enc1 and (a + b).encode(encoding) != enc1[a] + enc1[b]:
+                return None
+    except UnicodeError:
+        return None
     try:
         whole = url.encode(encoding)
     except UnicodeError:
@@ -327,7 +346,7 @@ def py_strip_prefix(url):
     return url.strip().partition(':')[0]
 
 
-def run_real(wu, case, op='parse'):
+def run_real(wu, case, op='parse', after=None):
     """Run the real parse; fill case.real (canonical tokens), case.info, case.exc and the model request line."""
     clear_caches(wu)
     Log.idna, Log.ipv6, Log.unq = [], [], []
@@ -335,9 +354,12 @@ def run_real(wu, case, op='parse'):
     try:
         with guard():
             try:
-                if op == 'parse':
+                if op == 'parse' or after is not None:
                     case.info = wu.URLInfo.parse(case.url, default_scheme=case.ds, encoding=case.encoding)
-                    case.real, case.errs = fmt_info(case.info)
+                    if after is not None:
+                        case.real = after(case.info)     # same guard, same parameter logs
+                    else:
+                        case.real, case.errs = fmt_info(case.info)
                 else:
                     case.info = wu.parse_url_or_log(case.url, encoding=case.encoding)
                     if case.info is None:
@@ -354,8 +376,8 @@ def run_real(wu, case, op='parse'):
         case.real = 'timeout'
     # model request
     encname = {'utf-8': 'utf8', 'iso8859-1': 'latin1', 'ascii': 'ascii'}.get(codecs.lookup(case.encoding).name, 'table')
-    if 'az09/?#%. '.encode(case.encoding) != b'az09/?#%. ':
-        encname = 'utf8'        # UTF-16/32 documents: the (repaired) code percent-encodes as UTF-8
+    if PRINTABLE_ASCII.encode(case.encoding) != PRINTABLE_ASCII.encode('ascii'):
+        encname = 'utf8'        # UTF-16/32, HZ, UTF-7 documents: the (repaired) code percent-encodes as UTF-8
     enct = []
     if encname == 'table':
         # the lower-cased scheme candidate can re-enter the text ('.' in scheme): its characters too
@@ -592,6 +614,23 @@ NONASCII = ['Ġ', '\u2020', '\u202f', '\u2f2e', '\u2e2f', '\u3f23', 'é', 'ß', 
 SURR = ['\ud800', '\udc80', '\udfff', '\udcff']
 
 
+def _nfkc_delims():
+    import unicodedata
+    out = []
+    for cp in range(0x80, 0x110000):
+        if 0xd800 <= cp < 0xe000:
+            continue
+        ch = chr(cp)
+        n = unicodedata.normalize('NFKC', ch)
+        if n != ch and any(d in n for d in '/?#@:[]%\\ '):
+            out.append(ch)
+    return out
+
+
+NFKC_DELIMS = _nfkc_delims()
+NFKC_DELIMS += [c for c in NFKC_DELIMS if ' ' not in __import__('unicodedata').normalize('NFKC', c)] * 4
+
+
 def rand_text(rng, n, pool=ALNUM):
     return ''.join(rng.choice(pool) for _ in range(n))
 
@@ -706,6 +745,10 @@ class Spec:
             self.hostkind = 'name'
             labels = [rand_text(rng, rng.randrange(1, 8), ALNUM + '-') for _ in range(rng.randrange(1, 4))]
             self.host = '.'.join(labels) + rng.choice(['', '', '', '.'])
+        elif r < 0.46:
+            self.hostkind = 'idn'
+            # a character whose IDNA/NFKC mapping is (or holds) a URL delimiter: example.com／.evil.org
+            self.host = rng.choice(['example.com', 'a.b', rand_text(rng, 3)]) + rng.choice(NFKC_DELIMS) + rng.choice(['.evil.org', 'x', '', 'q=1', '80'])
         elif r < 0.5:
             self.hostkind = 'idn'
             labels = [rand_text(rng, rng.randrange(0, 3)) + rng.choice(['é', 'ß', '文字', 'ü', 'ñ', 'ı', 'ö']) + rand_text(rng, rng.randrange(0, 3))
@@ -848,6 +891,8 @@ class Spec:
                 return False
         if self.user is not None and any(c in (self.user + (self.pw or '')) for c in '/?#@'):
             return False
+        if isinstance(self.host, str) and any(ch.isspace() for ch in self.host):
+            return False        # str.strip() removes it only where the URL ends with the host: not a spelling difference
         return True
 
 
@@ -897,6 +942,8 @@ def gen_malformed(rng):
     if r < 0.9:
         u = 'http://' + rng.choice(['', 'u@', 'u:p@', '\udc80@', 'u:\udfff@', '%ED%B2%80@', 'é:ü@', '%@', 'a%zz@']) + rng.choice(['h', 'é.com', '１.２.３.４', '0x7F.1', '１２７.0.0.1', '０x7f.0.0.1', '0X7f000001', 'a_b', 'a b', 'a%20b', 'xn--', 'xn--a', 'xn--é', 'XN--MAANA-PTA.com', 'ß.de', 'ǆ.com', '\u200c.com', '\xad.com', 'a\xadb.com', '。com', 'a。b', 'a．b', 'a｡b', '１。２。３。４', '0x.1', '1.2.3', '1.2.3.4.5', '1.2.3.4.', '.1.2.3.4', '1..2.3', '-1', '1.-1.0.0', '+1.2.3.4', '1_0.0.0.1', '0o17', '0b1', '4294967296', '4294967295', '0xffffffff', '0x100000000', '1.2.3.999', '08', '09.1.1.1', '0x_1', '00000000000000000000000000000001'])
         return u + rng.choice(['', '/', '/\udc80', '/?\udc80', '/#\udc80', '/a?b#c'])
+    if rng.random() < 0.5:
+        return 'http://' + rng.choice(['example.com', 'h', 'a.b']) + rng.choice(NFKC_DELIMS) + rng.choice(['.evil.org/x', '/', 'p?q', '', ':81/'])
     return ''.join(rng.choice(SOUP + NONASCII + SURR + list(SPECIAL) + list('aZ1')) for _ in range(rng.randrange(1, 20)))
 
 
